@@ -258,9 +258,43 @@ def explore_model(mods, m, mode, acc, counting=True, levels=None):
     return fails
 
 
+def format_probe():
+    """The models of this check are built in memory in the format the real loader returns.  Before anything is explored one probe model is written to
+    disk, loaded with the real loader and compared with its in-memory twin: if the loader's format has changed, the in-memory models would no longer
+    be inputs the generator can meet, and the check says so (harness error) instead of reporting what the generator does with them."""
+    import contextlib
+    import io
+    import os
+    from .. import rulesets as R
+    probe = {'ngram': 2, 'ip': {'a': 0, 'b': 2}, 'cp': {'aa': 1, 'ab': 0, 'ba': 0, 'bb': 2}, 'ln': {1: 10, 2: 0, 3: 1, 4: 0}}
+    d = tree.mkdtemp('pcfgmc-c10p-')
+    R.write_omen(os.path.join(d, 'Omen'), {'ngram': 2, 'alphabet': ['a', 'b'], 'ip': probe['ip'], 'ep': {'a': 0, 'b': 0}, 'cp': probe['cp'], 'ln': [10, 0, 1, 0]})
+    lr = tree.imp('lib_guesser.omen.input_file_io').load_rules
+    g = {}
+    with contextlib.redirect_stdout(io.StringIO()), contextlib.redirect_stderr(io.StringIO()):
+        ok = lr(os.path.join(d, 'Omen'), g)
+    tree.rmtree(d)
+    mine = build(probe)
+    if not ok:
+        raise RuntimeError('harness: the real OMEN loader does not load the probe model')
+
+    def norm(t):
+        return {k: sorted(v) for k, v in t.items() if v} if hasattr(t, 'items') else t
+    for key in ('ngram', 'max_level'):
+        if g.get(key) != mine.get(key):
+            raise RuntimeError('harness: loader format changed (%s: %r, in-memory models have %r)' % (key, g.get(key), mine.get(key)))
+    for key in ('ip', 'ln'):
+        if type(g.get(key)) is not type(mine[key]) or norm(g[key]) != norm(mine[key]):
+            raise RuntimeError('harness: loader format changed (%s: loader gives %r, in-memory models have %r)' % (key, g.get(key), mine[key]))
+    if type(g.get('cp')) is not dict or any(type(v) is not dict for v in g['cp'].values()) or {k: norm(v) for k, v in g['cp'].items()} != {k: norm(v) for k, v in mine['cp'].items()}:
+        raise RuntimeError('harness: loader format changed (cp: loader gives %r, in-memory models have %r)' % (g.get('cp'), mine['cp']))
+
+
 def run_shard(shard, tier, acc):
     name, si, ns = shard
     tree.use()
+    if si == 0:
+        format_probe()
     mods = (tree.imp('lib_guesser.omen.markov_cracker').MarkovCracker, tree.imp('lib_guesser.omen.optimizer').Optimizer)
     fam = families(tier)[name]
     gen, mode = fam[0], fam[1]
